@@ -343,3 +343,69 @@ def data_rest(s: Str, rfc: Bool, very_first: Bool, enc: Opt[Str], cp: Opt[Str]) 
     if is_comment(row_text(s, rfc, very_first, enc, cp), cp):
         return data_rest(row_rest(s, rfc, very_first, enc, cp), rfc, False, enc, cp)
     return row_rest(s, rfc, very_first, enc, cp)
+
+
+# ---------------------------------------------------------------- writing (C10, C14, C15)
+@spec
+def all_strings(cs: Seq[Cell]) -> Bool:
+    if len(cs) == 0:
+        return True
+    return all_strings(cs[:-1]) and is_str(cs[-1])
+
+
+@lemma
+def all_strings_prefix(cs: Seq[Cell], n: Int):
+    # pointwise text cells => the recursive all_strings (what ''.join demands of a record)
+    props('C10', 'C14', 'C15')
+    requires(0 <= n and n <= len(cs))
+    requires(forall(Int, lambda j: implies(0 <= j and j < n, is_str(cs[j]))))
+    ensures(all_strings(cs[:n]), 'prefix_is_text')
+    hint(implies(n > 0, cs[:n][:-1] == cs[:n - 1] and cs[:n][-1] == cs[n - 1]))
+    induct(n)
+
+
+@spec
+def cells_join(sep: Str, cs: Seq[Cell]) -> Str:
+    if len(cs) == 0:
+        return ''
+    if len(cs) == 1:
+        return sval(cs[0])
+    return cells_join(sep, cs[:-1]) + sep + sval(cs[-1])
+
+
+@spec
+def esc(s: Str) -> Str:
+    return str_replace(s, '"', '""')
+
+
+@spec
+def quote_spec(src: Str, d: Str, rfc: Bool) -> Str:
+    # a field is enclosed in quotes (inner quotes doubled) iff it contains a quote or the delimiter (or, rfc, a line break)
+    if '"' in src:
+        return '"' + esc(src) + '"'
+    if d in src or (rfc and ('\n' in src or '\r' in src)):
+        return '"' + src + '"'
+    return src
+
+
+@spec(opaque=True)
+def cell_text(c: Cell) -> Str:
+    # str(c) for numbers and other objects
+    return str(c)
+
+
+@spec
+def norm_text(c: Cell) -> Str:
+    # how a cell is written: None as the empty string, strings as they are, everything else through str()
+    if is_none_cell(c):
+        return ''
+    if is_str(c):
+        return sval(c)
+    return cell_text(c)
+
+
+@spec
+def any_none(cs: Seq[Cell], n: Int) -> Bool:
+    if n <= 0:
+        return False
+    return any_none(cs, n - 1) or is_none_cell(cs[n - 1])
